@@ -725,6 +725,12 @@ def ghost_exec(self, stmts, st):
             self.oblige(self.oid("ghost_assert"), st, z, g)
             st.assume(z)
             continue
+        if g.startswith("assume "):
+            # an explicit, named assumption about user code (A2); listed in the evidence, never silently added
+            what, _, why = g[7:].partition(" ## ")
+            st.assume(self.spec_truth(what, st))
+            self.assume_log(f"A2 (assumed in the contract of {self.c.qual}): {what}" + (f" -- {why}" if why else ""))
+            continue
         if g.startswith("use "):
             self.use_lemma(g[4:], st)
             continue
